@@ -1,6 +1,7 @@
 import GT.Base.JsonQ
 import GT.Base.QSqrt
 import GT.Model.Dtype
+import GT.Model.DtypeVal
 import GT.Model.Rescale
 open Lean GT.J GT GT.Dtype GT.Rescale
 namespace GT.Driver.C12
@@ -86,7 +87,9 @@ def entryOf (s : String) : R Entry :=
   match s with
   | "rotation_matrix" => pure .rotationMatrix | "standard_rotation" => pure .standardRotation
   | "elliptic" => pure .elliptic | "sl2_iso" => pure .sl2Iso | "from_angle" => pure .fromAngle
-  | "regular_polygon" => pure .regularPolygon | "coxeter_rep" => pure .coxeterRep
+  | "regular_polygon" => pure .regularPolygon
+  | "standard_loxodromic" => pure .standardLoxodromic | "point_along" => pure .pointAlong
+  | "regular_polygon_angle" => pure .regularPolygonAngle | "coxeter_rep" => pure .coxeterRep
   | "array_like" => pure .arrayLike | "zeros_float" => pure .zerosFloat
   | "identity_float" => pure .identityFloat | "point_hyperboloid" => pure .pointHyperboloid
   | "point_affine_hyperboloid" => pure .pointFromAffineHyperboloid
@@ -135,6 +138,14 @@ def identityOp (j : Json) : R Json := do
 
 def numberOp (j : Json) : R Json := do
   return .str (packStr (number (← packOf (← field j "val")) (← optDt j "dtype")))
+
+/-- `utils.array_like(x, dtype=…)` for a packaging of the number `v`: `[dtype, stored value]`
+(float32 rounding is the identity: the correspondence sends values representable in float32) -/
+def arrayLikeValOp (j : Json) : R Json := do
+  match arrayLikeVal id (← libOf j) (← packOf (← field j "array")) (← qf j "v") (← optPack j "like")
+      (← optDt j "dtype") (← boolf j "integer_type") with
+  | .ok (d, x) => return .arr #[.str (dtStr d), ofQ x]
+  | .error .typeError => throw "TypeError"
 
 def entryOp (j : Json) : R Json := do
   outDt (entryDtype (← libOf j) (← entryOf (← strf j "entry")) (← packOf (← field j "pack")))
@@ -218,7 +229,7 @@ def applyOp (j : Json) : R Json := withVec j "x" fun n x => do
 def ops : List (String × Handler) :=
   [("c12.can_cast", canCastOp), ("c12.probe", probeOp), ("c12.promote", promoteOp), ("c12.is_linalg", isLinalgOp),
    ("c12.check_type", checkTypeOp), ("c12.array_like", arrayLikeOp), ("c12.zeros", zerosOp),
-   ("c12.identity", identityOp), ("c12.number", numberOp), ("c12.entry_dtype", entryOp),
+   ("c12.identity", identityOp), ("c12.number", numberOp), ("c12.entry_dtype", entryOp), ("c12.array_like_val", arrayLikeValOp),
    ("c12.affine", affineOp), ("c12.segment", segOp), ("c12.circle", circleOp),
    ("c12.utt", uttOp), ("c12.point_along", alongOp), ("c12.normalize", normalizeOp),
    ("c12.reflect", reflectOp), ("c12.apply", applyOp)]
